@@ -46,6 +46,7 @@
 //! [metrics]: https://docs.rs/metrics
 #![deny(missing_docs)]
 #![cfg_attr(docsrs, feature(doc_cfg), deny(rustdoc::broken_intra_doc_links))]
+#[cfg_attr(metrics_verif, allow(unused_imports))]
 use std::io::{self, Write};
 use std::net::SocketAddr;
 use std::sync::{
@@ -80,6 +81,9 @@ const CLIENT_INTEREST: Interest = Interest::READABLE.add(Interest::WRITABLE);
 mod proto {
     include!(concat!(env!("OUT_DIR"), "/event.proto.rs"));
 }
+
+#[cfg(metrics_verif)]
+pub mod verif;
 
 use self::proto::metadata::MetricType;
 
@@ -237,6 +241,14 @@ pub struct TcpRecorder {
     state: Arc<State>,
 }
 
+#[cfg(metrics_verif)]
+impl TcpRecorder {
+    /// Verification hook: number of events waiting in the channel to the transport thread.
+    pub fn verif_queue_len(&self) -> usize {
+        self.state.tx.len()
+    }
+}
+
 /// Builder for creating and installing a TCP recorder/exporter.
 #[derive(Debug)]
 pub struct TcpBuilder {
@@ -357,6 +369,8 @@ fn run_transport(
     state: Arc<State>,
     buffer_size: Option<usize>,
 ) {
+    #[cfg(metrics_verif)]
+    let verif_port = listener.local_addr().map(|a| a.port()).unwrap_or(0);
     let buffer_limit = buffer_size.unwrap_or(std::usize::MAX);
     let mut events = Events::with_capacity(1024);
     let mut clients = HashMap::new();
@@ -364,8 +378,12 @@ fn run_transport(
     let mut metadata = HashMap::new();
     let mut next_token = START_TOKEN;
     let mut buffered_pmsgs = VecDeque::with_capacity(buffer_limit);
+    #[cfg(metrics_verif)]
+    verif::emit(verif_port, verif::Record::Start);
 
     loop {
+        #[cfg(metrics_verif)]
+        verif::emit(verif_port, verif::Record::Idle);
         let _span = trace_span!("transport");
 
         // Poll until we get something.  All events -- metrics wake-ups and network I/O -- flow
@@ -376,6 +394,11 @@ fn run_transport(
             continue;
         }
         drop(_evspan);
+        #[cfg(metrics_verif)]
+        if verif::stop_requested(verif_port) {
+            verif::emit(verif_port, verif::Record::Stop);
+            return;
+        }
 
         // Technically, this is an abuse of size_hint() but Mio will return the number of events
         // for both parts of the tuple.
@@ -383,8 +406,12 @@ fn run_transport(
 
         let _pspan = trace_span!("process events");
         for event in events.iter() {
+            #[cfg(metrics_verif)]
+            verif_snapshot(verif_port, &state);
             match event.token() {
                 WAKER => {
+                    #[cfg(metrics_verif)]
+                    verif::emit(verif_port, verif::Record::Wake);
                     // Read until we hit our buffer limit or there are no more messages.
                     let _mrxspan = trace_span!("metrics in");
                     loop {
@@ -404,15 +431,33 @@ fn run_transport(
                             // If our sender is dead, we can't do anything else, so just return.
                             Err(_) => return,
                         };
+                        #[cfg(metrics_verif)]
+                        verif::emit(verif_port, verif::Record::Recv);
 
                         match msg {
                             Event::Metadata(key, metric_type, unit, desc) => {
+                                #[cfg(metrics_verif)]
+                                let verif_key = key.clone();
                                 let entry = metadata
                                     .entry(key)
                                     .or_insert_with(|| (metric_type, None, None));
                                 let (_, uentry, dentry) = entry;
                                 *uentry = unit;
                                 *dentry = Some(desc);
+                                #[cfg(metrics_verif)]
+                                if let Some((t, u, d)) = metadata.get(&verif_key) {
+                                    if let Ok(frame) = convert_metadata_to_protobuf_encoded(
+                                        &verif_key,
+                                        *t,
+                                        *u,
+                                        d.as_ref(),
+                                    ) {
+                                        verif::emit(
+                                            verif_port,
+                                            verif::Record::IngestMetadata { frame: frame.to_vec() },
+                                        );
+                                    }
+                                }
                             }
                             Event::Metric(key, value) => {
                                 match convert_metric_to_protobuf_encoded(key, value) {
@@ -429,11 +474,23 @@ fn run_transport(
                         continue;
                     }
 
+                    #[cfg(metrics_verif)]
+                    verif::emit(
+                        verif_port,
+                        verif::Record::Fanout {
+                            frames: buffered_pmsgs.iter().map(|b| b.to_vec()).collect(),
+                        },
+                    );
+
                     // Now fan out each of these items to each client.
                     for (token, (conn, wbuf, msgs)) in clients.iter_mut() {
                         // Before we potentially do any draining, try and drive the connection to
                         // make sure space is freed up as much as possible.
+                        #[cfg(metrics_verif)]
+                        verif::begin_drive(verif_port, verif_token(token));
                         let done = drive_connection(conn, wbuf, msgs);
+                        #[cfg(metrics_verif)]
+                        verif_drive_end(verif_port, verif_token(token), done, wbuf, msgs);
                         if done {
                             clients_to_remove.push(*token);
                             state.decrement_clients();
@@ -452,10 +509,36 @@ fn run_transport(
                         let available =
                             if msgs.len() < buffer_limit { buffer_limit - msgs.len() } else { 0 };
                         let to_drain = buffered_pmsgs.len().saturating_sub(available);
+                        #[cfg(metrics_verif)]
+                        if to_drain > 0 {
+                            verif::emit(
+                                verif_port,
+                                verif::Record::DropOldest {
+                                    token: verif_token(token),
+                                    count: to_drain,
+                                },
+                            );
+                        }
+                        #[cfg(metrics_verif)]
+                        let verif_before = msgs.len().saturating_sub(to_drain);
                         let _ = msgs.drain(0..to_drain);
                         msgs.extend(buffered_pmsgs.iter().take(buffer_limit).cloned());
+                        #[cfg(metrics_verif)]
+                        for frame in msgs.iter().skip(verif_before) {
+                            verif::emit(
+                                verif_port,
+                                verif::Record::Enqueue {
+                                    token: verif_token(token),
+                                    frame: frame.to_vec(),
+                                },
+                            );
+                        }
 
+                        #[cfg(metrics_verif)]
+                        verif::begin_drive(verif_port, verif_token(token));
                         let done = drive_connection(conn, wbuf, msgs);
+                        #[cfg(metrics_verif)]
+                        verif_drive_end(verif_port, verif_token(token), done, wbuf, msgs);
                         if done {
                             clients_to_remove.push(*token);
                             state.decrement_clients();
@@ -472,6 +555,8 @@ fn run_transport(
                             trace!(?conn, ?token, "removing client");
                             clients.remove(&token);
                             state.decrement_clients();
+                            #[cfg(metrics_verif)]
+                            verif::emit(verif_port, verif::Record::Disconnect { token: token.0 });
                         }
                     }
                 }
@@ -482,6 +567,14 @@ fn run_transport(
                             Ok((mut conn, _)) => {
                                 // Get our client's token and register the connection.
                                 let token = next(&mut next_token);
+                                #[cfg(metrics_verif)]
+                                verif::emit(
+                                    verif_port,
+                                    verif::Record::Accept {
+                                        token: token.0,
+                                        peer: conn.peer_addr().ok(),
+                                    },
+                                );
                                 poll.registry()
                                     .register(&mut conn, token, CLIENT_INTEREST)
                                     .expect("failed to register interest for client connection");
@@ -490,10 +583,22 @@ fn run_transport(
 
                                 // Start tracking them, and enqueue all of the metadata.
                                 let metadata = generate_metadata_messages(&metadata);
+                                #[cfg(metrics_verif)]
+                                for frame in metadata.iter() {
+                                    verif::emit(
+                                        verif_port,
+                                        verif::Record::Enqueue {
+                                            token: token.0,
+                                            frame: frame.to_vec(),
+                                        },
+                                    );
+                                }
                                 clients
                                     .insert(token, (conn, None, metadata))
                                     .ok_or(())
                                     .expect_err("client mapped to existing token!");
+                                #[cfg(metrics_verif)]
+                                verif_snapshot(verif_port, &state);
                             }
                             Err(ref e) if would_block(e) => break,
                             Err(e) => {
@@ -506,18 +611,77 @@ fn run_transport(
                 token => {
                     if event.is_writable() {
                         if let Some((conn, wbuf, msgs)) = clients.get_mut(&token) {
+                            #[cfg(metrics_verif)]
+                            verif::begin_drive(verif_port, token.0);
                             let done = drive_connection(conn, wbuf, msgs);
+                            #[cfg(metrics_verif)]
+                            verif_drive_end(verif_port, token.0, done, wbuf, msgs);
                             if done {
                                 trace!(?conn, ?token, "removing client");
                                 clients.remove(&token);
                                 state.decrement_clients();
+                                #[cfg(metrics_verif)]
+                                verif::emit(
+                                    verif_port,
+                                    verif::Record::Disconnect { token: token.0 },
+                                );
                             }
                         }
                     }
                 }
             }
         }
+        #[cfg(metrics_verif)]
+        verif_snapshot(verif_port, &state);
     }
+}
+
+#[cfg(metrics_verif)]
+fn verif_token(token: &Token) -> usize {
+    token.0
+}
+
+#[cfg(metrics_verif)]
+fn verif_snapshot(port: u16, state: &State) {
+    verif::emit(
+        port,
+        verif::Record::Snapshot {
+            client_count: state.client_count.load(Ordering::Acquire),
+            should_send: state.should_send(),
+        },
+    );
+}
+
+#[cfg(metrics_verif)]
+fn verif_drive_end(
+    port: u16,
+    token: usize,
+    done: bool,
+    wbuf: &Option<Bytes>,
+    msgs: &VecDeque<Bytes>,
+) {
+    verif::emit(
+        port,
+        verif::Record::DriveEnd {
+            token,
+            done,
+            wbuf: wbuf.as_ref().map(|b| b.len()),
+            msgs: msgs.len(),
+        },
+    );
+}
+
+/// The one place where bytes are handed to a client's socket.
+#[cfg(not(metrics_verif))]
+#[inline]
+fn write_to_client(conn: &mut TcpStream, buf: &[u8]) -> io::Result<usize> {
+    conn.write(buf)
+}
+
+/// The one place where bytes are handed to a client's socket (traced, see [`verif`]).
+#[cfg(metrics_verif)]
+fn write_to_client(conn: &mut TcpStream, buf: &[u8]) -> io::Result<usize> {
+    verif::write(conn, buf)
 }
 
 #[allow(clippy::mutable_key_type)]
@@ -554,7 +718,7 @@ fn drive_connection(
             },
         };
 
-        match conn.write(&buf) {
+        match write_to_client(conn, &buf) {
             // Zero write = client closed their connection, so remove 'em.
             Ok(0) => {
                 trace!(?conn, "zero write, closing client");
